@@ -118,7 +118,7 @@ def run(chk, routes_data=None):
         rp = {'op': r.op, 'ids': [r.id], 'family': r.family, 'record': r.line[:3000]}
         impl = parse_routes_impl(r.res)
         if 'panic' in impl or 'panic' in impl.get('direct', {}) or 'panic' in impl.get('via', {}):
-            chk.extra_cov['skipped_panics'] = chk.extra_cov.get('skipped_panics', 0) + 1
+            chk.panic_record(r, impl.get('panic') or impl.get('direct', {}).get('panic') or impl.get('via', {}).get('panic'), rp)
             continue
         inp = parse_input(r.inp)
         m = model.get(r.id)
